@@ -306,4 +306,94 @@ theorem C20_no_internal_error (fs : FS) (fuel : Nat) (st : St) (p : Path) (tl : 
     (∀ s, parseFile fs fuel st p tl = .ok s → s.context.isSome = true) :=
   parseFile_good fs fuel st p tl
 
+
+/-! ### keys outside ASCII -/
+
+/-- "The same key up to case" is Python's `str.lower()` on whole strings (`lowerPy`, from the
+interpreter's own tables), not ASCII lower-casing: `É`/`é`, `Д`/`д` and the Kelvin sign / `k` are
+spellings of one key (cited one after the other they are reported), `ß` and `SS` are not
+(`lower()`, not `casefold()`); the string-level rules count too: `ΟΔΟΣ` and `οδος` (final sigma)
+are one key, `ΟΔΟΣ` and `οδοσ` are two, and `İ` (U+0130) is the key `i̇` (two characters). -/
+theorem C20_case_mismatch_unicode :
+    lastSpelling ["É".toList] "é".toList = some "É".toList ∧
+    lastSpelling ["д".toList] "Д".toList = some "д".toList ∧
+    lastSpelling [[Char.ofNat 0x212A]] "k".toList = some [Char.ofNat 0x212A] ∧
+    lastSpelling ["ß".toList] "SS".toList = none ∧
+    lastSpelling ["ΟΔΟΣ".toList] "οδος".toList = some "ΟΔΟΣ".toList ∧
+    lastSpelling ["ΟΔΟΣ".toList] "οδοσ".toList = none ∧
+    lastSpelling [[Char.ofNat 0x130]] [Char.ofNat 0x69, Char.ofNat 0x307] = some [Char.ofNat 0x130] ∧
+    mismatches [] ["É".toList, "é".toList, "é".toList] = [("é".toList, "É".toList)] := by
+  decide +kernel
+
+/-! ### a nested file that cannot be opened -/
+
+/-- The non-closed case.  On an acyclic inclusion (depth ≤ `d`, files may be missing) reading stops
+at the first `\@input` — in reading order, at any depth — whose file `m` cannot be opened: the parse
+ends in the pybtex I/O error naming `m` (`PybtexError('unable to open m …')`), and what has been
+reported by then are exactly the problems of the events read before it (the spec's reports of
+`(eventsUntilMissing …).1`, which ends with that `\@input` line).  `m` is indeed absent from the file
+system; and when nothing is missing, `eventsUntilMissing` is the complete unfolding `events` the
+other theorems speak about. -/
+theorem C20_missing_include (fs : FS) (d fuel : Nat) (p : Path)
+    (hd : depthOk fs d p = true) (hle : d ≤ fuel) :
+    (∀ m, (eventsUntilMissing fs d p).2 = some m →
+      parse fs fuel p = .error ⟨.cannotOpen m, reports (eventsUntilMissing fs d p).1⟩ ∧ fs m = none) ∧
+    (closedDepth fs d p = true → eventsUntilMissing fs d p = (events fs d p, none)) :=
+  ⟨fun m hm => ⟨parse_missing fs d fuel p m hd hle hm, eventsUntilMissing_missing fs d p m hm⟩,
+   eventsUntilMissing_closed fs d p⟩
+
+/-- a case mismatch is reported on line 2, then `gone.aux` cannot be opened; the `\bibdata` line
+after the `\@input` is never read; a missing file two levels down -/
+theorem C20_missing_include_nonvacuous :
+    parse (fsOf [("t.aux".toList, ["\\citation{a}".toList, "\\citation{A}".toList,
+                                   "\\@input{gone.aux}".toList, "\\bibdata{x}".toList])]) 3 "t.aux".toList =
+      .error ⟨.cannotOpen "gone.aux".toList,
+              [⟨.caseMismatch "A".toList "a".toList, "t.aux".toList, some 2, some "\\citation{A}".toList⟩]⟩ ∧
+    (eventsUntilMissing (fsOf [("t".toList, ["\\@input{u}".toList, "\\bibdata{x}".toList]),
+                               ("u".toList, ["\\bibstyle{s}".toList, "\\@input{v}".toList, "\\bibstyle{s}".toList])])
+        3 "t".toList).2 = some "v".toList ∧
+    ((eventsUntilMissing (fsOf [("t".toList, ["\\@input{u}".toList, "\\bibdata{x}".toList]),
+                               ("u".toList, ["\\bibstyle{s}".toList, "\\@input{v}".toList, "\\bibstyle{s}".toList])])
+        3 "t".toList).1.map fun e => (e.file, e.lineno)) =
+      [("t".toList, 1), ("u".toList, 1), ("u".toList, 2)] := by
+  refine ⟨by rfl, by decide +kernel, by decide +kernel⟩
+
+/-! ### `Engine.make_bibliography` -/
+
+/-- `Engine.make_bibliography` consumes exactly the denotation: on a closed document without fatal
+problem it calls `format_from_files` with the names of the first `\bibdata` (comma list expanded)
+each extended by the reader's suffix, the style of the first `\bibstyle` (or the explicitly given
+style), and the citations of the document in reading order, repeats kept; a fatal problem of the
+document is raised unchanged before anything is formatted. -/
+theorem C20_engine_consumes (fs : FS) (d fuel : Nat) (p : Path) (suffix : Str)
+    (hcl : closedDepth fs d p = true) (hle : d ≤ fuel) :
+    (∀ k, Spec.fatal (events fs d p) = some k → ∀ so,
+      makeBibliographyArgs fs fuel p so suffix = .error ⟨.aux ⟨k, p, none, none⟩, reports (events fs d p)⟩) ∧
+    (Spec.fatal (events fs d p) = none →
+      ∃ ns s, data (events fs d p) = some ns ∧ style (events fs d p) = some s ∧
+        makeBibliographyArgs fs fuel p none suffix =
+          .ok ⟨ns.map (· ++ suffix), some s, citations (events fs d p)⟩ ∧
+        ∀ s', makeBibliographyArgs fs fuel p (some s') suffix =
+          .ok ⟨ns.map (· ++ suffix), some s', citations (events fs d p)⟩) := by
+  constructor
+  · intro k hk so
+    simp only [makeBibliographyArgs, parse_spec fs d fuel p hcl hle, hk]
+  · intro hf
+    cases hdat : data (events fs d p) with
+    | none => simp [Spec.fatal, hdat] at hf
+    | some ns =>
+      cases hsty : style (events fs d p) with
+      | none => simp [Spec.fatal, hdat, hsty] at hf
+      | some s =>
+        refine ⟨ns, s, rfl, rfl, ?_, fun s' => ?_⟩ <;>
+          simp only [makeBibliographyArgs, parse_spec fs d fuel p hcl hle, hf, hdat, hsty]
+
+theorem C20_engine_consumes_nonvacuous :
+    makeBibliographyArgs demoFS 4 "t.aux".toList none ".bib".toList =
+      .ok ⟨["z.bib".toList], some "plain".toList,
+           ["a".toList, "B".toList, "b".toList, "a}{c".toList, "A".toList]⟩ ∧
+    makeBibliographyArgs demoFS 4 "v.aux".toList none ".bib".toList =
+      .error ⟨.aux ⟨.noBibdata, "v.aux".toList, none, none⟩, []⟩ := by
+  constructor <;> rfl
+
 end Pybtex.Props
